@@ -144,6 +144,7 @@ func (d *Decoder) Decode(pkt *rtp.Packet) ([]byte, error) {
 	// Check if we have a complete KLV unit
 	if marker {
 		result := d.buffer
+		d.buffer = nil // the returned unit must not be overwritten by the next one
 		d.reset()
 		return result, nil
 	}
@@ -151,6 +152,7 @@ func (d *Decoder) Decode(pkt *rtp.Packet) ([]byte, error) {
 	// If we know the expected size and have reached it, return the complete unit
 	if d.expectedSize > 0 && len(d.buffer) >= d.expectedSize {
 		result := d.buffer[:d.expectedSize]
+		d.buffer = nil // the returned unit must not be overwritten by the next one
 		d.reset()
 		return result, nil
 	}
